@@ -255,7 +255,7 @@ func VerifC19_E5(v *VerifV) {
 	K := v.Param("K")
 	for step := 0; step < K; step++ {
 		x := v.Choice("evidence", 2)
-		switch v.Choice("op", 6) {
+		switch v.Choice("op", 7) {
 		case 0: // from a peer
 			err := pool.AddEvidence(evs[x])
 			v.Assert(err == nil, "C19.pool.genuine-evidence-refused")
@@ -281,6 +281,18 @@ func VerifC19_E5(v *VerifV) {
 			if !committed[x] {
 				pending[x] = true // the first occurrence was verified and stored before the duplicate was seen
 			}
+		case 6: // a proposed block repeating an item with another one in between: [x, y, x]
+			y := 1 - x
+			err := pool.CheckEvidence(types.EvidenceList{evs[x], evs[y], evs[x]})
+			v.Assert(err != nil, "C19.pool.duplicate-evidence-in-block-accepted")
+			// items are verified and stored in order until the list is refused
+			if !committed[x] {
+				pending[x] = true
+				if !committed[y] {
+					pending[y] = true
+				}
+			}
+			v.Cover("separated-duplicate")
 		case 4: // a block commits item x
 			if committed[x] {
 				return // a block committing it again would not have passed CheckEvidence
